@@ -16,6 +16,30 @@ package scen
 // passed, so the client itself has to abandon the request (rule
 // not-closed-after-timeout).
 //
+// The node itself among the crawled peers (drawn, "crawl-self"). The routing
+// table of this client is whatever the crawler reports (public option
+// WithCrawler) and the host's network confirms as connected with a public
+// address; neither the crawl loop nor GetClosestPeers takes the own ID out. So
+// the generated environments include one in which the crawl result lists the
+// node itself (the fake network then reports a loop-back connection to the own
+// ID, the peerstore holds the own public address, as a libp2p host's does).
+// For keys close to the own ID the node is then one of the K peers the search
+// fans out to. Nobody can be asked through a connection to oneself: the
+// request reaches the message-sender seam like any other and is failed there
+// with a dial-to-self error (what a swarm answers), as a scheduled outcome.
+// No new rule: this is one more responder that cannot be asked, and every
+// clause applies unchanged - in particular "the result channel is always
+// closed, after completion or cancellation" (rules not-closed,
+// not-closed-after-timeout): a fan-out member that fails locally, or is never
+// started, must not keep the search open. Class of regressions exposed:
+// special-casing of particular table members (the own ID, an unreachable or
+// filtered peer) in the fan-out that gets the completion accounting wrong.
+// Caveat for the reader of a finding: the stock swarm never reports a
+// connection to the own ID, so with the stock host and crawler this table
+// content needs a custom Crawler/host; it is generated because the client's
+// own code anticipates it (updatePeerValues, maybeAddAddrs guard against
+// p == self).
+//
 // Granularity: the handler of one answer runs atomically within a step (up to
 // the hand-over to a consumer that is not reading, "lazy" mode). A variant
 // with scheduler-owned yield points at the found-set mutex was tried and
@@ -57,7 +81,8 @@ func init() {
 		s.Finish()
 	},
 		Real: real, Stub: stub,
-		Faults: append(append(append([]string{}, c08Faults...), c08LazyFaults...), "probe_silent_cut_by_timeout"),
+		Faults: append(append(append([]string{}, c08Faults...), c08LazyFaults...), "probe_silent_cut_by_timeout",
+			"probe_self_in_table", "probe_self_among_closest", "fault_self_asked", "probe_self_asked_search_closed", "probe_self_asked_cancelled_search"),
 	})
 }
 
@@ -95,7 +120,13 @@ func c08BuildFullRT(s *sim.Sim) *c08World {
 
 	w.host = simhost.New(s, u.Self.ID, u.Self.Addrs, u.Name)
 	crawled := c08DrawSeeds(s, "crawl-", responders)
-	cr := &c08Crawler{h: w.host, peers: crawled}
+	// the crawl result lists the node itself (see the header comment)
+	selfCrawled := s.Chance("crawl-self", 1, 3)
+	reported := crawled
+	if selfCrawled {
+		reported = append(append([]*simnet.Peer{}, crawled...), u.Self)
+	}
+	cr := &c08Crawler{h: w.host, peers: reported}
 	var snd *simnet.Sender
 	builder := func(_ host.Host, _ []protocol.ID) pb.MessageSenderWithDisconnect {
 		snd = &simnet.Sender{S: s, U: u}
@@ -123,6 +154,16 @@ func c08BuildFullRT(s *sim.Sim) *c08World {
 	records.VerifSetShuffle(frt.ProviderManager, c08Shuffle(c08DrawShuffleSeed(s, "shuffle-local")))
 	w.storeLocal(frt.ProviderManager, local)
 	w.tablePeers = len(frt.Stat())
+	if selfCrawled {
+		inTable := false
+		for _, id := range frt.Stat() {
+			inTable = inTable || id == u.Self.ID
+		}
+		if !inTable {
+			panic("c08: the crawl reported the node itself, but the routing table does not list it")
+		}
+		s.Count("probe_self_in_table")
+	}
 	w.lazy = s.Chance("lazy-consumer", 1, 3)
 
 	w.find = frt.FindProvidersAsync
@@ -130,7 +171,7 @@ func c08BuildFullRT(s *sim.Sim) *c08World {
 		_ = frt.Close()
 		_ = w.host.Close()
 	}
-	s.Summary["cfg"] = fmt.Sprintf("client=fullrt N=%d K=%d crawled=%d table=%d waitFrac=%.1f perOp=%v count=%d pool=%d local=%d faults=%d silent=%d qevents=%v cancelAt=%d lazy=%v",
-		c.N, k, len(crawled), w.tablePeers, waitFrac, perOp, c.Count, len(w.pool), len(w.local), c.FaultLevel, c.Silent, c.QEvents, c.CancelAt, w.lazy)
+	s.Summary["cfg"] = fmt.Sprintf("client=fullrt N=%d K=%d crawled=%d self-crawled=%v table=%d waitFrac=%.1f perOp=%v count=%d pool=%d local=%d faults=%d silent=%d qevents=%v cancelAt=%d lazy=%v",
+		c.N, k, len(crawled), selfCrawled, w.tablePeers, waitFrac, perOp, c.Count, len(w.pool), len(w.local), c.FaultLevel, c.Silent, c.QEvents, c.CancelAt, w.lazy)
 	return w
 }
